@@ -18,8 +18,9 @@ def procCommon (regular : Bool) (st : InLoop) (wnd : BitVec 16) (una : U32) : In
               decide ((parseUna (if regular then { st.k with rmt_wnd := wnd.setWidth 32 } else st.k) una).2 > 0) }
 
 def procAck (st1 : InLoop) (ts sn : U32) : InLoop :=
-  { st1 with k := (parseFastack (parseAck st1.k sn) sn ts).1,
-             flushSeg := st1.flushSeg || (parseFastack (parseAck st1.k sn) sn ts).2, updRtt := true, latest := ts }
+  { st1 with k := (parseFastack (shrinkBuf (parseAck st1.k sn)) sn ts).1,
+             flushSeg := st1.flushSeg || (parseFastack (shrinkBuf (parseAck st1.k sn)) sn ts).2,
+             updRtt := true, latest := ts }
 
 def procPush (st1 : InLoop) (seg : Seg) : InLoop :=
   if itimediff seg.sn (st1.k.rcv_nxt + st1.k.rcv_wnd) < 0 then
@@ -116,9 +117,9 @@ theorem procCommon_sim {σ : Sigma} {st st' : InLoop} (h : ISim σ st st') (regu
 theorem procAck_sim {σ : Sigma} {st st' : InLoop} (h : ISim σ st st') (ts sn : U32) :
     ISim σ (procAck st ts sn) (procAck st' (ts + σ.t) (sn + σ.a)) := by
   unfold procAck
-  obtain ⟨f1, f2⟩ := parseFastack_sim (parseAck_sim h.k sn) sn ts
-  have e : (st'.flushSeg || (parseFastack (parseAck st'.k (sn + σ.a)) (sn + σ.a) (ts + σ.t)).2) =
-      (st.flushSeg || (parseFastack (parseAck st.k sn) sn ts).2) := by rw [f2, h.flushSeg]
+  obtain ⟨f1, f2⟩ := parseFastack_sim (shrinkBuf_sim (parseAck_sim h.k sn)) sn ts
+  have e : (st'.flushSeg || (parseFastack (shrinkBuf (parseAck st'.k (sn + σ.a))) (sn + σ.a) (ts + σ.t)).2) =
+      (st.flushSeg || (parseFastack (shrinkBuf (parseAck st.k sn)) sn ts).2) := by rw [f2, h.flushSeg]
   exact { h with k := f1, flushSeg := e, updRtt := rfl, latest := fun _ => rfl }
 
 theorem procPush_sim {σ : Sigma} {st st' : InLoop} (h : ISim σ st st') (seg : Seg) :
